@@ -221,5 +221,49 @@ def pair_events(pairs, rng):
     return evs
 
 
+def triple_items(rng, quick):
+    """3-subsets of the rows of each interacting family (first example of each row; in the thorough
+    tier also the PAIR_EXTRA examples of one member)."""
+    import itertools
+
+    out = []
+    for fam, rows in T.TRIPLE_FAMILIES.items():
+        subs = list(itertools.combinations(rows, 3))
+        if quick and len(subs) > 45:
+            rng.shuffle(subs)
+            subs = subs[:45]
+        for sub in subs:
+            first = [(k, [e["id"] for e in T._BY_KEY[k]["examples"] if e["pair"]][0]) for k in sub]
+            out.append(first)
+            for i, k in enumerate(sub):
+                for x in PAIR_EXTRA.get(k, [])[:1 if quick else 3]:
+                    if quick and rng.random() < 0.6:
+                        continue
+                    alt = list(first)
+                    alt[i] = (k, x)
+                    out.append(alt)
+    return out
+
+
+def triple_events(triples, rng):
+    """every way of splitting the three items between the file and the options"""
+    import itertools
+
+    evs = []
+    for items in triples:
+        items = order(items)
+        cmd = max(("load", "phonopy") if rng.random() < 0.5 else ("phonopy", "load"),
+                  key=lambda c: sum(has_option(it, c) for it in items))
+        routes = []
+        for mask in itertools.product((0, 1), repeat=3):
+            if any(m and not has_option(it, cmd) for m, it in zip(mask, items)):
+                continue
+            routes.append(([it for m, it in zip(mask, items) if not m], [it for m, it in zip(mask, items) if m], None))
+        if len(routes) < 2:
+            continue
+        evs.append(build_event("t:%s:%s" % (cmd, "+".join("%s:%s" % it for it in items)), cmd, "triple", items, routes))
+    return evs
+
+
 def empty_event(cmd):
     return build_event("e:%s" % cmd, cmd, "empty", [], [([], [], None)])
